@@ -1,5 +1,6 @@
 (* Extraction of the reference evaluator copy and of the model of the self-tail-call optimisation. *)
 From Coq Require Import ZArith ExtrOcamlBasic.
-Require Import ZV.Model.RefSemTco.
+Require Import ZV.Model.RefSemTco ZV.Model.TailSites ZV.Model.TailSitesRun.
 Extraction "model.ml" Z.add Z.mul Z.opp Z.div_eucl Z.of_nat Z.to_nat Z.compare
-  eval_program_cfg eval_program_tco prim_ident all_prims cc.
+  eval_program_cfg eval_program_tco prim_ident all_prims cc
+  jumps_run spec_jumps all_pos.
